@@ -82,7 +82,7 @@ def run(tier, replay=None):
     for i, h in enumerate(hc):
         h["id"] = i + 1
         h["want"] = ["files", "nodes", "errors", "lints", "cfg"] if (not replay and i in lint_only) else ["files", "toks", "nodes", "errors", "lints", "cfg"]
-    tp, evs = run_harness(rvh, hc, wd, "pos")
+    tp, evs = run_harness_par(rvh, hc, wd, "pos")
     for e, m in zip(evs, meta):
         e["case"] = m
         e.setdefault("lints", [])
